@@ -2087,10 +2087,13 @@ func (c S3ApiController) PutActions(ctx *fiber.Ctx) error {
 				})
 		}
 
-		partNumber := int32(ctx.QueryInt("partNumber", -1))
-		if partNumber < 1 || partNumber > 10000 {
+		// the range is checked before the number is narrowed: 2^32+1
+		// is no part number, not part 1
+		partNumberQuery := ctx.QueryInt("partNumber", -1)
+		partNumber := int32(partNumberQuery)
+		if partNumberQuery < 1 || partNumberQuery > 10000 {
 			if c.debug {
-				debuglogger.Logf("invalid part number: %d", partNumber)
+				debuglogger.Logf("invalid part number: %d", partNumberQuery)
 			}
 			return SendXMLResponse(ctx, nil,
 				s3err.GetAPIError(s3err.ErrInvalidPartNumber),
@@ -2152,10 +2155,13 @@ func (c S3ApiController) PutActions(ctx *fiber.Ctx) error {
 
 	if ctx.Request().URI().QueryArgs().Has("uploadId") &&
 		ctx.Request().URI().QueryArgs().Has("partNumber") {
-		partNumber := int32(ctx.QueryInt("partNumber", -1))
-		if partNumber < 1 || partNumber > 10000 {
+		// the range is checked before the number is narrowed: 2^32+1
+		// is no part number, not part 1
+		partNumberQuery := ctx.QueryInt("partNumber", -1)
+		partNumber := int32(partNumberQuery)
+		if partNumberQuery < 1 || partNumberQuery > 10000 {
 			if c.debug {
-				debuglogger.Logf("invalid part number: %d", partNumber)
+				debuglogger.Logf("invalid part number: %d", partNumberQuery)
 			}
 			return SendResponse(ctx, s3err.GetAPIError(s3err.ErrInvalidPartNumber),
 				&MetaOpts{
@@ -3351,7 +3357,8 @@ func (c S3ApiController) HeadObject(ctx *fiber.Ctx) error {
 	acct := ctx.Locals("account").(auth.Account)
 	isRoot := ctx.Locals("isRoot").(bool)
 	parsedAcl := ctx.Locals("parsedAcl").(auth.ACL)
-	partNumberQuery := int32(ctx.QueryInt("partNumber", -1))
+	partNumberWide := ctx.QueryInt("partNumber", -1)
+	partNumberQuery := int32(partNumberWide)
 	versionId := ctx.Query("versionId")
 	key := ctx.Params("key")
 	keyEnd := ctx.Params("*1")
@@ -3365,9 +3372,9 @@ func (c S3ApiController) HeadObject(ctx *fiber.Ctx) error {
 
 	var partNumber *int32
 	if ctx.Request().URI().QueryArgs().Has("partNumber") {
-		if partNumberQuery < 1 || partNumberQuery > 10000 {
+		if partNumberWide < 1 || partNumberWide > 10000 {
 			if c.debug {
-				debuglogger.Logf("invalid part number: %d", partNumberQuery)
+				debuglogger.Logf("invalid part number: %d", partNumberWide)
 			}
 			return SendResponse(ctx, s3err.GetAPIError(s3err.ErrInvalidPartNumber),
 				&MetaOpts{
